@@ -178,7 +178,11 @@ pub fn specs(tier: &str, _prop: &str) -> Vec<ExpSpec> {
         let mut c2 = cfg;
         c2.name = format!("{}-short", c2.name);
         c2.short = Short::Always;
-        v.push(ExpSpec::new(c2, alpha::mixed(512), if th { 4 } else { 3 }));
+        v.push(ExpSpec::new(c2.clone(), alpha::mixed(512), if th { 4 } else { 3 }));
+        let mut c3 = c2;
+        c3.name = c3.name.replace("-short", "-blk7");
+        c3.short = Short::Block(7);
+        v.push(ExpSpec::new(c3, alpha::mixed(512), if th { 4 } else { 2 }));
     }
     // single FAT copy
     for ft in [FatType::Fat12, FatType::Fat32] {
